@@ -1322,15 +1322,6 @@ func c01SplitPatch(r *an.Run) {
 	if f == nil {
 		return
 	}
-	// the writer used for a line is a phi over {both, &minus, &plus}
-	var both *ssa.Call
-	for _, c := range an.CallsTo(f, "io.MultiWriter") {
-		both = c.(*ssa.Call)
-	}
-	if both == nil {
-		r.Undecided(short(f)+"|both", f.Pos(), "splitPatch no longer builds an io.MultiWriter for context lines: writer selection cannot be decided")
-		return
-	}
 	// the two versions, by role: the locals the first / the second result are built from
 	minusRoot, plusRoot := splitVersionRoots(f)
 	if minusRoot == nil || plusRoot == nil {
@@ -1338,19 +1329,21 @@ func c01SplitPatch(r *an.Run) {
 		return
 	}
 	splitRoots = [2]*ssa.Alloc{minusRoot, plusRoot}
-	// MultiWriter(&minus, &plus)
-	targets := map[string]bool{}
-	for v := range an.BackSlice(both, an.SliceOpts{ThroughCalls: true, ThroughMemory: true}) {
-		if a, ok := v.(*ssa.Alloc); ok {
-			switch a {
-			case minusRoot:
-				targets["minus"] = true
-			case plusRoot:
-				targets["plus"] = true
-			}
+	var both *ssa.Call
+	for _, c := range an.CallsTo(f, "io.MultiWriter") {
+		both = c.(*ssa.Call)
+	}
+	// the per-line loop
+	var loop *an.Loop
+	for _, l := range an.Loops(f) {
+		if loop == nil || len(l.Blocks) > len(loop.Blocks) {
+			loop = l
 		}
 	}
-	r.Check(targets["minus"] && targets["plus"], short(f)+"|both-writers", both.Pos(), "context lines are written to both the minus and the plus version")
+	if loop == nil {
+		r.Undecided(short(f)+"|line-loop", f.Pos(), "splitPatch has no loop over the lines of the section")
+		return
+	}
 	// cases on the first byte
 	isFirstByte := func(v ssa.Value) bool {
 		u, ok := v.(*ssa.UnOp)
@@ -1364,56 +1357,178 @@ func c01SplitPatch(r *an.Run) {
 		i, isc := an.ConstInt(ia.Index)
 		return isc && i == 0 && strings.HasSuffix(an.Path(ia.X), ".Text")
 	}
-	var wphi *ssa.Phi
-	for _, b := range f.Blocks {
-		for _, in := range b.Instrs {
-			if p, ok := in.(*ssa.Phi); ok && an.ShortType(p.Type()) == "io.Writer" {
-				wphi = p
+	// which versions does a block write to? (directly, through the writer variable, or through a helper
+	// that is handed one version's variable)
+	versionOf := func(v ssa.Value) string {
+		switch rootAlloc(v) {
+		case minusRoot:
+			return "minus"
+		case plusRoot:
+			return "plus"
+		}
+		if a, ok := an.Unwrap(v).(*ssa.Alloc); ok {
+			switch a {
+			case minusRoot:
+				return "minus"
+			case plusRoot:
+				return "plus"
 			}
 		}
+		return ""
 	}
-	if wphi == nil {
-		r.Undecided(short(f)+"|writer", f.Pos(), "no writer selection (phi of io.Writer) found in splitPatch")
+	helperWrites := func(h *ssa.Function, pi int) bool {
+		for _, g := range helperGroup(h, 1) {
+			for _, c := range an.CallsTo(g, "(*bytes.Buffer).Write", "(*bytes.Buffer).WriteByte", "(*bytes.Buffer).WriteString", "(*bytes.Buffer).WriteRune", "(io.Writer).Write") {
+				recv := c.Common().Args[0]
+				if c.Common().IsInvoke() {
+					recv = c.Common().Value
+				}
+				if g == h && pi < len(h.Params) && an.Root(an.Unwrap(recv)) == ssa.Value(h.Params[pi]) {
+					return true
+				}
+			}
+		}
+		return false
+	}
+	writesOnPath := func(p an.DPath) map[string]bool {
+		out := map[string]bool{}
+		for _, b := range p.Blocks {
+			for _, in := range b.Instrs {
+				c, ok := in.(ssa.CallInstruction)
+				if !ok {
+					continue
+				}
+				switch {
+				case an.IsCallTo(c, "(io.Writer).Write"):
+					w := p.ResolveOnPath(c.Common().Value)
+					if both != nil && an.Unwrap(w) == ssa.Value(both) {
+						for v := range an.BackSlice(both, an.SliceOpts{ThroughCalls: true, ThroughMemory: true}) {
+							if a, ok := v.(*ssa.Alloc); ok {
+								if n := versionOf(a); n != "" {
+									out[n] = true
+								}
+							}
+						}
+					} else if n := versionOf(w); n != "" {
+						out[n] = true
+					} else {
+						out["?"+an.Describe(w)] = true
+					}
+				case an.IsCallTo(c, "(*bytes.Buffer).Write", "(*bytes.Buffer).WriteByte", "(*bytes.Buffer).WriteString", "(*bytes.Buffer).WriteRune"):
+					if n := versionOf(c.Common().Args[0]); n != "" {
+						out[n] = true
+					}
+				default:
+					if h := an.StaticCallee(c); h != nil && an.InModule(h) && h.Blocks != nil {
+						for i, a := range c.Common().Args {
+							if n := versionOf(a); n != "" && helperWrites(h, i) {
+								out[n] = true
+							}
+						}
+					}
+				}
+			}
+		}
+		return out
+	}
+	classify := func(c ssa.Value) string {
+		cmp, ok := c.(*ssa.BinOp)
+		if !ok {
+			return ""
+		}
+		if cmp.Op == token.EQL || cmp.Op == token.NEQ {
+			var k int64
+			var isc bool
+			switch {
+			case isFirstByte(cmp.X):
+				k, isc = an.ConstInt(cmp.Y)
+			case isFirstByte(cmp.Y):
+				k, isc = an.ConstInt(cmp.X)
+			}
+			if isc {
+				name := "first-byte-" + string(rune(k))
+				if cmp.Op == token.NEQ {
+					return "not:" + name
+				}
+				return name
+			}
+		}
+		if sub, emptyWhenTrue, ok := emptinessTest(cmp); ok && strings.HasSuffix(an.Path(sub), ".Text") {
+			if emptyWhenTrue {
+				return "empty"
+			}
+			return "not:empty"
+		}
+		return ""
+	}
+	hdr := loop.Header
+	var bodyStart *ssa.BasicBlock
+	for _, sc := range hdr.Succs {
+		if loop.Blocks[sc] {
+			bodyStart = sc
+		}
+	}
+	paths, err := an.EnumeratePathsFrom(bodyStart, classify, func(b *ssa.BasicBlock) bool { return b == hdr }, 512, true)
+	if err != nil {
+		r.Undecided(short(f)+"|line-decision", f.Pos(), "cannot extract how splitPatch routes a line: %v", err)
 		return
 	}
-	want := map[int64]string{'-': "minus", '+': "plus"}
-	found := map[string]bool{}
-	for _, c := range an.EqCases(f, isFirstByte) {
-		k, ok := an.ConstInt(c.Key)
-		if !ok {
-			continue
+	get := func(p an.DPath, a string) (bool, bool) {
+		if v, ok := p.Atoms[a]; ok {
+			return v, true
 		}
-		reach := an.Reach([]*ssa.BasicBlock{c.Target}, func(b *ssa.BasicBlock, i int) bool { return b == wphi.Block() })
-		got := map[string]bool{}
-		for i, pred := range wphi.Block().Preds {
-			if reach[pred] || pred == c.Target {
-				got[writerName(wphi.Edges[i], both)] = true
+		if v, ok := p.Atoms["not:"+a]; ok {
+			return !v, true
+		}
+		return false, false
+	}
+	seen := map[string]bool{}
+	okMinus, okPlus, okDefault := true, true, true
+	nMinus, nPlus, nDefault := 0, 0, 0
+	for _, p := range paths {
+		// other first bytes given a meaning?
+		for a, v := range p.Atoms {
+			name := strings.TrimPrefix(a, "not:")
+			if strings.HasPrefix(name, "first-byte-") && name != "first-byte--" && name != "first-byte-+" {
+				_ = v
+				if !seen[name] {
+					seen[name] = true
+					r.Fail(short(f)+"|marker|"+strings.TrimPrefix(name, "first-byte-"), f.Pos(), "splitPatch gives a meaning to a first byte %q that the patch format does not define", strings.TrimPrefix(name, "first-byte-"))
+				}
 			}
 		}
-		w, known := want[k]
-		if !known {
-			r.Fail(short(f)+"|marker|"+string(rune(k)), c.If.Pos(), "splitPatch gives a meaning to a first byte %q that the patch format does not define", rune(k))
-			continue
+		isMinus, mk := get(p, "first-byte--")
+		isPlus, pk := get(p, "first-byte-+")
+		empty, ek := get(p, "empty")
+		if mk && isMinus && pk && isPlus {
+			continue // infeasible
 		}
-		found[w] = true
-		r.Check(len(got) == 1 && got[w], short(f)+"|marker|"+string(rune(k)), c.If.Pos(), "lines starting with %q go to the %s version only (writer: %s)", rune(k), w, joinSorted(got))
-	}
-	r.Check(found["minus"] && found["plus"], short(f)+"|markers", f.Pos(), "both markers '-' and '+' are recognised")
-	// default edge: both
-	def := map[string]bool{}
-	for i, pred := range wphi.Block().Preds {
-		viaCase := false
-		for _, c := range an.EqCases(f, isFirstByte) {
-			reach := an.Reach([]*ssa.BasicBlock{c.Target}, func(b *ssa.BasicBlock, i int) bool { return b == wphi.Block() })
-			if reach[pred] || pred == c.Target {
-				viaCase = true
+		if ek && empty && ((mk && isMinus) || (pk && isPlus)) {
+			continue // infeasible: an empty line has no first byte
+		}
+		w := writesOnPath(p)
+		switch {
+		case mk && isMinus:
+			nMinus++
+			if !(len(w) == 1 && w["minus"]) {
+				okMinus = false
+			}
+		case pk && isPlus:
+			nPlus++
+			if !(len(w) == 1 && w["plus"]) {
+				okPlus = false
+			}
+		default:
+			nDefault++
+			if !(len(w) == 2 && w["minus"] && w["plus"]) {
+				okDefault = false
 			}
 		}
-		if !viaCase {
-			def[writerName(wphi.Edges[i], both)] = true
-		}
 	}
-	r.Check(len(def) == 1 && def["both"], short(f)+"|default", wphi.Pos(), "every other line goes to both versions (writer: %s)", joinSorted(def))
+	r.Check(nMinus > 0 && okMinus, short(f)+"|marker|-", f.Pos(), "lines starting with '-' go to the minus version only (%d path(s))", nMinus)
+	r.Check(nPlus > 0 && okPlus, short(f)+"|marker|+", f.Pos(), "lines starting with '+' go to the plus version only (%d path(s))", nPlus)
+	r.Check(nMinus > 0 && nPlus > 0, short(f)+"|markers", f.Pos(), "both markers '-' and '+' are recognised, by the FIRST byte of the line")
+	r.Check(nDefault > 0 && okDefault, short(f)+"|default", f.Pos(), "every other line (space-prefixed, empty) goes to both versions (%d path(s))", nDefault)
 	// the marker byte, and only it, is stripped: every cut of a line's text (in splitPatch or a helper it
 	// calls) is [1:], and each marker arm performs one
 	group := helperGroup(f, 2)
@@ -1441,12 +1556,12 @@ func c01SplitPatch(r *an.Run) {
 	}
 	armsStrip := 0
 	for _, c := range an.EqCases(f, isFirstByte) {
-		if _, ok := an.ConstInt(c.Key); ok && regionHas(c.Target, wphi.Block(), group, isStrip) {
+		if _, ok := an.ConstInt(c.Key); ok && regionHas(c.Target, hdr, group, isStrip) {
 			armsStrip++
 		}
 	}
 	r.Check(nStrip >= 1 && armsStrip == 2, short(f)+"|strip", f.Pos(), "exactly the marker byte is stripped in the '-' and in the '+' arm (%d [1:] cut(s), %d arm(s) perform one)", nStrip, armsStrip)
-	r.Count("split cases", len(found))
+	r.Count("split cases", nMinus+nPlus)
 	r.Min("split cases", 2)
 }
 
